@@ -35,7 +35,9 @@ FNS = ["SER", "BER", "PER", "SE", "SE0"]
 HOWS = ["buffer", "copy", "view", "list", "scalar", "int", "intarray", "0d", "strided", "2d", "uint"]
 REFUSALS = ["setConstellation3", "setConstellation2d", "setConstellationEmpty", "modulateM", "perBadLength", "serBadType"]
 
-CARE = ["WellFormed", "Bijective", "Unchecked", "Accepts", "CopyIsEqual"]
+CARE = ["WellFormed", "Bijective", "Unchecked", "Accepts", "CopyIsEqual",
+        # the EMITTED constellation (modulate of every label, every integer storage type) is the recorded table
+        "ModulateLaw", "ModulateOk", "ShapeKept", "ArgumentsUnchanged", "ResultNotAliased"]
 SNR_DB = np.arange(-30, 61, dtype=float)          # quick: 91 integer points (thorough: 364 points, see run)
 PACKETS = [1, 2, 3, 7, 10, 100, 1000, 10000, 10 ** 6]
 
@@ -495,13 +497,13 @@ def cc_pool(fn, items):
 def object_specs(ctx):
     th = ctx.tier == "thorough"
     rng = np.random.RandomState(ctx.seed + 16)
-    specs = [dict(kind="BPSK", M=2, calls=False), dict(kind="QPSK", M=4, calls=False)]
-    specs += [dict(kind="QAM", M=M, calls=False) for M in cc.QAM_ORDERS]
+    specs = [dict(kind="BPSK", M=2, calls=False, emit=True), dict(kind="QPSK", M=4, calls=False, emit=True)]
+    specs += [dict(kind="QAM", M=M, calls=False, emit=True) for M in cc.QAM_ORDERS]
     for M in cc.PSK_ORDERS + ([2048, 4096] if th else []):
         p0 = float(rng.choice([0.0, math.pi / M, 0.3]))
         # judged once straight after the constructor (the commonest use) and once after a setPhaseOffset call
-        specs.append(dict(kind="PSK", M=M, calls=False, phases=[p0 if M % 3 else 0.0]))
-        specs.append(dict(kind="PSK", M=M, calls=False, phases=[p0, float(rng.uniform(-7, 7))]))
+        specs.append(dict(kind="PSK", M=M, calls=False, emit=True, phases=[p0 if M % 3 else 0.0]))
+        specs.append(dict(kind="PSK", M=M, calls=False, emit=True, phases=[p0, float(rng.uniform(-7, 7))]))
     return specs
 
 
@@ -538,7 +540,7 @@ def run(ctx):
     nobj = 0
     hobjs = []
     for (tr, live), vd in zip(recs, verdicts):
-        cc.report(ctx, tr, vd, CARE, "(C16: no error-rate parameters can be derived from this table)")
+        cc.report(ctx, tr, vd, CARE, "(C16: the curves are judged against this recorded table; what modulate emits must be this table)")
         ctx.trace_done()
         if live is None:
             ctx.violation(f"{tr['spec']['kind']}({tr['m']}) could not be constructed", {"stage": "T", "spec": tr["spec"], "event": 1})
